@@ -24,7 +24,7 @@ def encErr : Err → String
   | .attr => "!AttributeError"
   | .type => "!TypeError"
   | .recursion => "!RecursionError"
-  | .fuel => "!Fuel"
+  | .fuel => "!RecursionError"   -- the model's recursion budget stands for Python's recursion limit
 
 def encOid : Option Oid → String
   | none => "~"
